@@ -66,12 +66,13 @@ TRUSTED = [
     'tie compares them with the written SURF lines',
     'cells of the model are intersections of signed surface numbers (single '
     'surfaces with either sense, one-sheet cones and macrobodies with the '
-    'negative sense: pot_expand_surfs), optionally with a TRCL (descriptor '
+    'either sense: pot_expand_surfs, a positive one gives a UNION volume), '
+    'optionally with a TRCL (descriptor '
     'classes and sides of each transformed copy are supplied by the harness '
     'from a hand-written rigid-motion table: translations and quarter-turn '
-    'rotations in the tie stream); unions (incl. positive literals of '
-    'collections), complements, FILL copies and TR on surface cards are '
-    'covered by the oracle sweep only',
+    'rotations in the tie stream); unions written with `:`, complements, FILL '
+    'copies and TR on surface cards are covered by the oracle sweep and, at '
+    'the level of the volume table, by the theorems linked with C13',
     'the union helper planes (two PLANEX ids above every other id) are not in '
     'the model: intersection-only cells never use them and they can never be '
     'the smallest of a duplicate group',
@@ -334,15 +335,17 @@ def gen_deck(rng, malformed=False):
     usable = sorted({s['id'] for s in singles if last[s['id']]['single']})
     cells = []
     n_cells = rng.randint(1, 4)
-    # collections (one-sheet cones, macrobodies): negative literals only (a
-    # positive one is a UNION, outside the model)
+    # collections (one-sheet cones, macrobodies): negative literals (an
+    # intersection of the sub-surfaces) and positive ones (a UNION volume)
     bodies = sorted(k for k, s in last.items() if not s['single'])
     for c in range(n_cells):
         k = rng.randint(1, min(4, len(usable)))
         lits = [sid if rng.random() < 0.5 else -sid
                 for sid in rng.sample(usable, k)]
         if bodies and rng.random() < 0.5:
-            lits.insert(rng.randrange(len(lits) + 1), -rng.choice(bodies))
+            body = rng.choice(bodies)
+            lits.insert(rng.randrange(len(lits) + 1),
+                        body if rng.random() < 0.35 else -body)
         cells.append({'id': c + 1, 'lits': lits, 'imp': 1})
     if rng.random() < 0.12:         # the same surface with both senses
         c = rng.choice(cells)
@@ -387,7 +390,7 @@ def gen_deck(rng, malformed=False):
                 continue
             names.add(n)
             badref = badref or sid == 79 or owner['id'] == 8
-            lit = -n if sid in bodies or rng.random() < 0.5 else n
+            lit = -n if rng.random() < (0.7 if sid in bodies else 0.5) else n
             rng.choice(hosts)['lits'].append(lit)
         if badref and fault is None:
             fault = 'missing'       # names a surface / a cell that does not exist
@@ -709,6 +712,8 @@ def written_possible(deck, dedup):
                 classes = [s['cls']] + list(s['aux'])
                 sides = list(s.get('sides') or [True] * len(classes))
                 names = [('card', abs(x), i) for i in range(len(classes))]
+            if x > 0 and len(classes) > 1:
+                continue        # a UNION volume: not in the cell's equation
             for cls, side, name in zip(classes, sides, names):
                 positive = (x > 0) == side
                 (pos if positive else neg).add(cls if dedup else name)
@@ -863,6 +868,19 @@ def corpus_decks():
             cell['trcl'] = trcl
         out.append((deck([card(1, '', 8), dict(cone_lo), card(7, '', 7)],
                          [cell, skip]), []))
+    # positive literals of collections (UNION volumes); with de-duplication
+    # the second cell dies and leaves the FICTIVE arguments of its UNIONs
+    rcc = {'id': 3, 'flag': '', 'text': MULTI[4][0], 'mcnp': MULTI[4][1],
+           'cls': CLASS_OF[MULTI[4][2][0]],
+           'aux': [CLASS_OF[f_] for f_ in MULTI[4][2][1:]],
+           'sides': MULTI[4][3], 'single': False, 'locus': None, 'pool': None}
+    cone_up = dict(cone_lo, id=2, text='kz 0 1 1', sides=[True, False])
+    for args in ([], ['--skip-deduplication']):
+        out.append((deck([card(1, '', 10), cone_up, dict(rcc), card(7, '', 7),
+                          card(8, '', 10)],
+                         [{'id': 1, 'lits': [-1, 7, 2], 'imp': 1},
+                          {'id': 2, 'lits': [-1, 8, 3, 2], 'imp': 1},
+                          {'id': 3, 'lits': [1], 'imp': 0}]), args))
     # one-sheet cone (two TRIPOLI-4 parts) flagged, weird flag after a star
     cone = {'id': 6, 'flag': '+', 'text': 'kz 0 1 1', 'mcnp': 1,
             'cls': CLASS_OF[('CONEZ', (0.0, 0.0, 0.0, 45.0))],
